@@ -32,8 +32,8 @@ RULE = ('A: every (core, ram, disk) request of a grid: quick = per dimension the
         'non-trivial when at least one of core/ram/disk is > 0. '
         'B: every catalogue entry x {by ComponentModelType, by ctype+Model, by ctype+each AlsoModels alias} x '
         '{no ids, ids} x {no labels, mac only, scalar bdf+mac, list bdf+mac/vlan lists of k VFs, list bdf only} x '
-        '{no service id, service id} x {no parent name, parent name} x component names (thorough adds randomised '
-        'label values and VF counts); distinct by the full argument description; all are non-trivial')
+        '{no service id, service id} x {no parent name, parent name} x component names, plus 2 (quick) / 6 (thorough) '
+        'seeded random label shapes per entry (1..130 VFs, list/scalar mac, vlan lists, ipv4); distinct by the full argument description; all are non-trivial')
 REQUIRED = ['map:request', 'map:fits', 'map:nothing-fits', 'map:zero-dimension', 'map:extra-fields',
             'clause:sufficient', 'clause:minimal', 'clause:largest-otherwise', 'clause:extra-fields-ignored',
             'catalog:name-capacities', 'catalog:get-instance-capacities', 'catalog:list-instances',
@@ -225,8 +225,8 @@ def static_sizes(ctx, orc, cat):
         listed, listed_names = {}, []
     ctx.count('catalog:list-instances')
     jnames = [e[0] for e in orc.ents]
-    if listed_names != list(dict.fromkeys(jnames)):
-        ctx.violation('C18/list-instances-differs', 'list_instances lists exactly the catalogue names in file order',
+    if sorted(listed_names) != sorted(set(jnames)):
+        ctx.violation('C18/list-instances-differs', 'list_instances lists exactly the catalogue names',
                       {'part': 'sizes', 'missing': [n for n in jnames if n not in listed_names][:5],
                        'unexpected': [n for n in listed_names if n not in orc.by_name][:5],
                        'first_listed': listed_names[:3], 'first_in_file': jnames[:3],
@@ -309,7 +309,7 @@ def run_sizes(ctx):
             ctx.mark_inconclusive(f'time budget reached after {done} of the requests of shard {ctx.shard}: '
                                   'the grid was not swept exhaustively')
             break
-    ctx.info['distinct_answers'] = sorted(answers)
+    ctx.info['distinct_answers_seen'] = sorted(answers)
     ctx.info['requests_evaluated'] = done
 
 
@@ -333,9 +333,9 @@ def label_specs(ctx, nports):
                         'vlan': [str(1001 + i) for i in range(3 + p)]} for p in range(nports)],
         'list-bdf-only': [{'bdf': [bdf(p, 1 + i) for i in range(2 + 2 * p)]} for p in range(nports)],
     }
-    if not ctx.quick:
+    if nports:
         rng = ctx.rng
-        for j in range(6):
+        for j in range(ctx.pick(2, 6)):
             lst = []
             for p in range(nports):
                 k = rng.choice([1, 2, 4, 7, 16, 64, 130])
@@ -700,8 +700,8 @@ def replay(ctx, case):
 
 
 LEVEL_TEXT = ('Runtime monitoring with independent reference oracles. A: every request of the catalogue-derived grid '
-              '(quick 68x25x17 = 28 900 requests incl. 0 and 2^31 per dimension; thorough the dense grid 0..66 x '
-              '0..258 x 17 disk values, ~3.0x10^5 requests) goes through the real map_capacities_to_instance and is '
+              '(quick 67x25x17 = 28 475 requests incl. 0 and 2^31 per dimension; thorough the dense grid (0..66, 2^31) x '
+              '(0..258, 2^31) x 17 disk values = 300 560 requests) goes through the real map_capacities_to_instance and is '
               'judged by a brute-force Pareto oracle over instance_sizes.json parsed by the check itself '
               '(sufficient, Pareto-minimal, largest otherwise, extra fields ignored); all 869 names are compared with '
               'their capacities through the JSON, get_instance_capacities and list_instances. B: every catalogue '
